@@ -5,9 +5,11 @@
    full symbolic step for one handshake message; hrecv / hstep are Conn.recv / Conn.step with the
    oracle answers computed symbolically (theorems C02_hrecv_is_recv, C02_hstep_is_step). *)
 From Coq Require Import Lia ZifyBool.
-From Model Require Import Base SeqNum Wire Conn Handshake.
-From Proofs Require Import HandshakeP.
+From RecordUpdate Require Import RecordUpdate.
+From Model Require Import Base SeqNum Wire Conn Handshake Net HsNet.
+From Proofs Require Import HandshakeP HsRunP.
 From Extract Require Import U_Handshake.
+Import RecordSetNotations.
 Open Scope Z_scope.
 
 (* (1) client_adopts_only_signed.  A client without a key that is not CONNECTED becomes CONNECTED / takes
@@ -199,3 +201,336 @@ Example C02_forged_and_genuine :
   (let c := fst (step (MServerHello (t_pub 5) p (t_sign 5 p))) in (c_status c, c_key c, c_token c))
     = (CONNECTED, Some (t_kdf (t_dh 3 11) 13), 1073741825).
 Proof. vm_compute. split; reflexivity. Qed.
+
+(* ================= RUN LEVEL (Model/HsNet.v, Proofs/HsRunP.v) =================
+   The client A (client0, pinned to pub root) and the server-side connection B (server0, root key
+   `root`) in ONE joint history of any length: a list of endpoint events in which every receive event
+   carries an arbitrary datagram (the network and the active attacker).  Each joint step is Net.nstep of
+   the two Conn.v endpoints with the oracle answers computed symbolically (C02_run_is_net_history).
+   Ghost: gA n / gB n log every handshake message an endpoint has processed (carrying datagram, key
+   held at arrival, state, type, content); signed_log (gB n) lists, in order, the (client public key,
+   payload) of every hello B has built and signed with the root key.
+   Attacker hypothesis dy_run: a server hello inside a datagram presented to the client satisfies
+   Handshake.attacker_hello with seen := the hellos the root key holder has signed SO FAR — by B in this
+   history (the ghost) or by other sessions of the same server (`other`, arbitrary, replayable).  B's
+   events are unconstrained.  sealed_run (only where stated) is Net.wf_ev: a datagram B can open under
+   the key it holds was emitted by A. *)
+
+(* (R0) the joint history is a Net.v history *)
+Theorem C02_run_is_net_history :
+  forall (SIG : Type) (pub : Z -> Z) (sign : Z -> sh_payload -> SIG) (verify : Z -> SIG -> sh_payload -> bool)
+         (dh kdf : Z -> Z -> Z) (parse : list byte -> hmsg SIG)
+         (ser_shello : Z -> sh_payload -> SIG -> list byte) (ser_chal : Z -> list byte)
+         (e : env) (n : hnet SIG) (v : jev),
+  let n1 := nstep e (net_of SIG n) (nev_of SIG pub sign verify dh kdf parse ser_shello ser_chal n v) in
+  let n' := jstep SIG pub sign verify dh kdf parse ser_shello ser_chal e n v in
+  nA n1 = h_conn (jA n') /\ nB n1 = h_conn (jB n') /\ wAB n1 = jAB n' /\ wBA n1 = jBA n'.
+Proof. exact jstep_is_nstep_proof. Qed.
+Print Assumptions C02_run_is_net_history.
+
+(* (R1) authentication as an invariant of runs.  At EVERY reachable joint state: either the client has
+   adopted nothing, holds no key and is not CONNECTED; or the hello it adopted last (ghost h_adopted)
+   carries the root key holder's signature of its payload p, p was built and signed by the genuine
+   server earlier in this history (it is in B's signed log) or by another of its sessions, the client's
+   key is kdf (dh a (sp_pub p)) (sp_salt p), its token is sp_token p, and the adoption is a logged
+   SERVER_HELLO message that travelled in a datagram the client could open. *)
+Theorem C02_run_authentication :
+  forall (SIG : Type) (pub : Z -> Z) (sign : Z -> sh_payload -> SIG) (verify : Z -> SIG -> sh_payload -> bool)
+         (dh kdf : Z -> Z -> Z) (parse : list byte -> hmsg SIG)
+         (ser_shello : Z -> sh_payload -> SIG -> list byte) (ser_chal : Z -> list byte),
+  (forall sk s m, verify (pub sk) s m = true <-> s = sign sk m) ->
+  forall (e : env) (a b root : Z) (rand : list (Z * Z)) (akeys : list Z) (other : list sh_payload) (vs : list jev),
+  ~ In root akeys ->
+  dy_run SIG pub sign verify dh kdf parse ser_shello ser_chal e root akeys other (hnet0 SIG a (Some (pub root)) b root rand) vs ->
+  let n := jrun SIG pub sign verify dh kdf parse ser_shello ser_chal e (hnet0 SIG a (Some (pub root)) b root rand) vs in
+  match h_adopted (jA n) with
+  | None => c_key (h_conn (jA n)) = None /\ c_status (h_conn (jA n)) <> CONNECTED
+  | Some (rp, p, sg) =>
+      sg = sign root p /\ verify (pub root) sg p = true /\
+      (In p other \/ exists cpub, In (cpub, p) (signed_log SIG pub (gB n))) /\
+      c_key (h_conn (jA n)) = Some (client_key dh kdf a p) /\ c_token (h_conn (jA n)) = sp_token p /\
+      exists d k0 sA, In (d, k0, (sA, SERVER_HELLO, MServerHello rp p sg)) (gA n) /\
+                      carried SIG parse (d, k0, (sA, SERVER_HELLO, MServerHello rp p sg))
+  end.
+Proof. exact run_authentication_proof. Qed.
+Print Assumptions C02_run_authentication.
+
+(* ... "built by the genuine server earlier in this history": a payload in B's signed log belongs to a
+   logged CLIENT_HELLO message in whose processing B queued exactly ser_shello (pub root) p (sign root p)
+   and took the key kdf (dh b cpub) (sp_salt p) and the token sp_token p.  EVERY history. *)
+Theorem C02_run_genuine_hello_was_built :
+  forall (SIG : Type) (pub : Z -> Z) (sign : Z -> sh_payload -> SIG) (verify : Z -> SIG -> sh_payload -> bool)
+         (dh kdf : Z -> Z -> Z) (parse : list byte -> hmsg SIG)
+         (ser_shello : Z -> sh_payload -> SIG -> list byte) (ser_chal : Z -> list byte)
+         (e : env) (a : Z) (pinned : option Z) (b root : Z) (rand : list (Z * Z)) (vs : list jev),
+  let n := jrun SIG pub sign verify dh kdf parse ser_shello ser_chal e (hnet0 SIG a pinned b root rand) vs in
+  forall cpub p, In (cpub, p) (signed_log SIG pub (gB n)) ->
+  exists d k0 sB ver, In (d, k0, (sB, CLIENT_HELLO, MClientHello cpub ver true)) (gB n) /\
+    sp_pub p = pub b /\
+    fst (hs_step SIG pub sign verify dh kdf ser_shello ser_chal sB CLIENT_HELLO (MClientHello cpub ver true)) =
+      send_type ((h_conn sB) <| c_token := sp_token p |> <| c_key := Some (server_key dh kdf b cpub p) |>
+                   <| c_status := CONNECTING |>)
+        SERVER_HELLO (ser_shello (pub root) p (sign root p)) RNone INone.
+Proof. exact run_genuine_built_proof. Qed.
+Print Assumptions C02_run_genuine_hello_was_built.
+
+(* ... and every handshake message the client EVER processed (altered, re-signed, foreign, replayed,
+   garbage, of any type) either was such a genuine hello, which it adopted, or left its key and token
+   alone and its status as it was or DISCONNECTED *)
+Theorem C02_run_client_messages :
+  forall (SIG : Type) (pub : Z -> Z) (sign : Z -> sh_payload -> SIG) (verify : Z -> SIG -> sh_payload -> bool)
+         (dh kdf : Z -> Z -> Z) (parse : list byte -> hmsg SIG)
+         (ser_shello : Z -> sh_payload -> SIG -> list byte) (ser_chal : Z -> list byte),
+  (forall sk s m, verify (pub sk) s m = true <-> s = sign sk m) ->
+  forall (e : env) (a b root : Z) (rand : list (Z * Z)) (akeys : list Z) (other : list sh_payload) (vs : list jev),
+  ~ In root akeys ->
+  dy_run SIG pub sign verify dh kdf parse ser_shello ser_chal e root akeys other (hnet0 SIG a (Some (pub root)) b root rand) vs ->
+  let n := jrun SIG pub sign verify dh kdf parse ser_shello ser_chal e (hnet0 SIG a (Some (pub root)) b root rand) vs in
+  forall d k0 sA ty m, In (d, k0, (sA, ty, m)) (gA n) ->
+  let c1 := fst (hs_step SIG pub sign verify dh kdf ser_shello ser_chal sA ty m) in
+  (exists rp p sg, ty = SERVER_HELLO /\ m = MServerHello rp p sg /\ sg = sign root p /\
+     (In p other \/ exists cpub, In (cpub, p) (signed_log SIG pub (gB n))) /\
+     c_key c1 = Some (client_key dh kdf a p) /\ c_token c1 = sp_token p /\ c_status c1 = CONNECTED) \/
+  (c_key c1 = c_key (h_conn sA) /\ c_token c1 = c_token (h_conn sA) /\
+   (c_status c1 = c_status (h_conn sA) \/ c_status c1 = DISCONNECTED)).
+Proof. exact run_client_messages_proof. Qed.
+Print Assumptions C02_run_client_messages.
+
+(* (R2a) promotion on proof of key, EVERY history, any client, no hypothesis: each handler.connect B has
+   reported was caused by a CHALLENGE_RESP message that carries B's token, which is the token of a hello B
+   had signed, processed while B held the key derived for that hello, in a datagram authentic under the
+   key B held when it arrived; and B is CONNECTED only with the key and token of such a report. *)
+Theorem C02_run_connect_only_after_proof_of_key :
+  forall (SIG : Type) (pub : Z -> Z) (sign : Z -> sh_payload -> SIG) (verify : Z -> SIG -> sh_payload -> bool)
+         (dh kdf : Z -> Z -> Z) (parse : list byte -> hmsg SIG)
+         (ser_shello : Z -> sh_payload -> SIG -> list byte) (ser_chal : Z -> list byte)
+         (e : env) (a : Z) (pinned : option Z) (b root : Z) (rand : list (Z * Z)) (vs : list jev),
+  let n := jrun SIG pub sign verify dh kdf parse ser_shello ser_chal e (hnet0 SIG a pinned b root rand) vs in
+  (forall d k0 sB ty m, In (d, k0, (sB, ty, m)) (gB n) ->
+     connects SIG pub sign verify dh kdf ser_shello ser_chal (sB, ty, m) = true ->
+     ty = CHALLENGE_RESP /\ m = MChallenge (c_token (h_conn sB)) /\
+     carried SIG parse (d, k0, (sB, ty, m)) /\
+     (exists k, k0 = Some k /\ authentic k d) /\
+     exists cpub p, In (cpub, p) (signed_log SIG pub (gB n)) /\ sp_pub p = pub b /\
+        c_key (h_conn sB) = Some (server_key dh kdf b cpub p) /\ c_token (h_conn sB) = sp_token p) /\
+  (c_status (h_conn (jB n)) = CONNECTED ->
+     exists d k0 sB m, In (d, k0, (sB, CHALLENGE_RESP, m)) (gB n) /\
+        connects SIG pub sign verify dh kdf ser_shello ser_chal (sB, CHALLENGE_RESP, m) = true /\
+        c_key (h_conn sB) = c_key (h_conn (jB n)) /\ c_token (h_conn sB) = c_token (h_conn (jB n))).
+Proof. exact run_connect_proof. Qed.
+Print Assumptions C02_run_connect_only_after_proof_of_key.
+
+(* (R2b) agreement inside ANY history: when the hello the client holds is the one B signed last and B
+   signed it for the client's public key pub a (the honest handshake, possibly surrounded by any amount of
+   loss, duplication, replay and injection), both ends hold the same key kdf (dh a (pub b)) salt and
+   the same token; if moreover B is CONNECTED, its connect report was caused by a challenge response with
+   that token, processed while B held that key, in a datagram authentic under the key B held on arrival *)
+Theorem C02_run_honest_complete_agree :
+  forall (SIG : Type) (pub : Z -> Z) (sign : Z -> sh_payload -> SIG) (verify : Z -> SIG -> sh_payload -> bool)
+         (dh kdf : Z -> Z -> Z) (parse : list byte -> hmsg SIG)
+         (ser_shello : Z -> sh_payload -> SIG -> list byte) (ser_chal : Z -> list byte),
+  (forall sk s m, verify (pub sk) s m = true <-> s = sign sk m) ->
+  (forall x y, dh x (pub y) = dh y (pub x)) ->
+  forall (e : env) (a b root : Z) (rand : list (Z * Z)) (akeys : list Z) (other : list sh_payload) (vs : list jev),
+  ~ In root akeys ->
+  dy_run SIG pub sign verify dh kdf parse ser_shello ser_chal e root akeys other (hnet0 SIG a (Some (pub root)) b root rand) vs ->
+  let n := jrun SIG pub sign verify dh kdf parse ser_shello ser_chal e (hnet0 SIG a (Some (pub root)) b root rand) vs in
+  forall rp p sg, h_adopted (jA n) = Some (rp, p, sg) ->
+  last (map Some (signed_log SIG pub (gB n))) None = Some (pub a, p) ->
+  (c_key (h_conn (jA n)) = Some (kdf (dh a (pub b)) (sp_salt p)) /\
+   c_key (h_conn (jB n)) = c_key (h_conn (jA n)) /\
+   c_token (h_conn (jA n)) = sp_token p /\ c_token (h_conn (jB n)) = sp_token p) /\
+  (c_status (h_conn (jB n)) = CONNECTED ->
+   exists d k0 sB, In (d, k0, (sB, CHALLENGE_RESP, MChallenge (sp_token p))) (gB n) /\
+     connects SIG pub sign verify dh kdf ser_shello ser_chal (sB, CHALLENGE_RESP, MChallenge (sp_token p)) = true /\
+     c_key (h_conn sB) = c_key (h_conn (jB n)) /\ c_token (h_conn sB) = sp_token p /\
+     exists k, k0 = Some k /\ authentic k d).
+Proof.
+  intros SIG pub sign verify dh kdf parse ser_shello ser_chal VS DC e a b root rand akeys other vs NR DY n rp p sg Had Hl.
+  split.
+  - exact (run_agreement_proof SIG pub sign verify dh kdf parse ser_shello ser_chal VS DC e a b root rand akeys other vs NR DY rp p sg Had Hl).
+  - intros St.
+    destruct (run_honest_complete_proof SIG pub sign verify dh kdf parse ser_shello ser_chal VS DC e a b root rand akeys other vs NR DY rp p sg Had Hl St)
+      as (_ & _ & _ & _ & X). exact X.
+Qed.
+Print Assumptions C02_run_honest_complete_agree.
+
+(* (R2c) with the AES-GCM hypothesis for B (sealed_run = Net.wf_ev): whenever B reports connect, the
+   datagram that caused it is one the client A itself emitted, sealed under a key A had derived from a
+   hello signed by the root key holder (built by B in this history or by another session) *)
+Theorem C02_run_connect_sealed_by_client :
+  forall (SIG : Type) (pub : Z -> Z) (sign : Z -> sh_payload -> SIG) (verify : Z -> SIG -> sh_payload -> bool)
+         (dh kdf : Z -> Z -> Z) (parse : list byte -> hmsg SIG)
+         (ser_shello : Z -> sh_payload -> SIG -> list byte) (ser_chal : Z -> list byte),
+  (forall sk s m, verify (pub sk) s m = true <-> s = sign sk m) ->
+  forall (e : env) (a b root : Z) (rand : list (Z * Z)) (akeys : list Z) (other : list sh_payload) (vs : list jev),
+  ~ In root akeys ->
+  dy_run SIG pub sign verify dh kdf parse ser_shello ser_chal e root akeys other (hnet0 SIG a (Some (pub root)) b root rand) vs ->
+  sealed_run SIG pub sign verify dh kdf parse ser_shello ser_chal e (hnet0 SIG a (Some (pub root)) b root rand) vs ->
+  let n := jrun SIG pub sign verify dh kdf parse ser_shello ser_chal e (hnet0 SIG a (Some (pub root)) b root rand) vs in
+  forall d k0 sB ty m, In (d, k0, (sB, ty, m)) (gB n) ->
+  connects SIG pub sign verify dh kdf ser_shello ser_chal (sB, ty, m) = true ->
+  exists k, k0 = Some k /\ authentic k d /\ In d (jAB n) /\
+    exists dA kA sA rp pl sg, In (dA, kA, (sA, SERVER_HELLO, MServerHello rp pl sg)) (gA n) /\
+      verify (pub root) sg pl = true /\ sg = sign root pl /\
+      (In pl other \/ exists cpub, In (cpub, pl) (signed_log SIG pub (gB n))) /\
+      k = client_key dh kdf a pl.
+Proof. exact run_connect_sealed_by_client_proof. Qed.
+Print Assumptions C02_run_connect_sealed_by_client.
+
+(* (R3) the replayed hello.  A genuine hello of ANOTHER session of the same server (p in `other`) is
+   signed by the pinned root key, so the client adopts it (R1 allows exactly this; example below) — the
+   property text ("only from a server-hello whose key-exchange parameters are signed by the matching
+   private key") is not contradicted.  What then happens: "the client's key is a key B held, or B never
+   reports connect": if no key the client ever derived from a verified hello is a key B held when a
+   datagram arrived, then in the whole history B reports no connect and is not CONNECTED. *)
+Theorem C02_run_foreign_hello_never_completes :
+  forall (SIG : Type) (pub : Z -> Z) (sign : Z -> sh_payload -> SIG) (verify : Z -> SIG -> sh_payload -> bool)
+         (dh kdf : Z -> Z -> Z) (parse : list byte -> hmsg SIG)
+         (ser_shello : Z -> sh_payload -> SIG -> list byte) (ser_chal : Z -> list byte),
+  (forall sk s m, verify (pub sk) s m = true <-> s = sign sk m) ->
+  forall (e : env) (a b root : Z) (rand : list (Z * Z)) (akeys : list Z) (other : list sh_payload) (vs : list jev),
+  ~ In root akeys ->
+  dy_run SIG pub sign verify dh kdf parse ser_shello ser_chal e root akeys other (hnet0 SIG a (Some (pub root)) b root rand) vs ->
+  sealed_run SIG pub sign verify dh kdf parse ser_shello ser_chal e (hnet0 SIG a (Some (pub root)) b root rand) vs ->
+  let n := jrun SIG pub sign verify dh kdf parse ser_shello ser_chal e (hnet0 SIG a (Some (pub root)) b root rand) vs in
+  (forall dA kA sA rp pl sg, In (dA, kA, (sA, SERVER_HELLO, MServerHello rp pl sg)) (gA n) ->
+     verify (pub root) sg pl = true ->
+     forall d k0 en, In (d, k0, en) (gB n) -> k0 <> Some (client_key dh kdf a pl)) ->
+  (forall j, In j (gB n) -> connects SIG pub sign verify dh kdf ser_shello ser_chal (snd j) = false) /\
+  c_status (h_conn (jB n)) <> CONNECTED.
+Proof. exact run_foreign_hello_never_completes_proof. Qed.
+Print Assumptions C02_run_foreign_hello_never_completes.
+
+(* ---- non-vacuity of the run-level theorems: complete symbolic histories over the ideal scheme of
+   Extract/U_Handshake.v.  Loadb / dumpb are tables: [1] = ClientHello(pub 3, version 1),
+   [2] = B's hello (root 5, (pub 11, salt 13, tok1)), [3] = ChallengeResp(tok1),
+   [4] = the hello of ANOTHER session of the same server (root 5, (pub 17, salt 19, tok2)),
+   [5] = ChallengeResp(tok2). ---- *)
+Definition env_x : env := {| e_max_payload := 1434; e_max_frag := 1024; e_max_frags := 8192 |}.
+Definition tok1 : Z := 1073741825.
+Definition tok2 : Z := 1073741827.
+Definition pB : sh_payload := {| sp_pub := 11; sp_salt := 13; sp_token := tok1 |}.
+Definition pO : sh_payload := {| sp_pub := 17; sp_salt := 19; sp_token := tok2 |}.
+Definition tbl : tables :=
+  {| t_parse := [([x01], MClientHello 3 1 true); ([x02], MServerHello 5 pB (5, pB)); ([x03], MChallenge tok1);
+                 ([x04], MServerHello 5 pO (5, pO)); ([x05], MChallenge tok2)];
+     t_shello := [(13, [x02]); (19, [x04])];
+     t_chal := [(tok1, [x03]); (tok2, [x05])] |}.
+Notation xjrun := (jrun tsig t_pub t_sign t_verify t_dh t_kdf (T_parse tbl) (T_shello tbl) (T_chal tbl)).
+Notation xdy_run := (dy_run tsig t_pub t_sign t_verify t_dh t_kdf (T_parse tbl) (T_shello tbl) (T_chal tbl)).
+Notation xsealed_run := (sealed_run tsig t_pub t_sign t_verify t_dh t_kdf (T_parse tbl) (T_shello tbl) (T_chal tbl)).
+Notation xconnects := (connects tsig t_pub t_sign t_verify t_dh t_kdf (T_shello tbl) (T_chal tbl)).
+Definition dg_x : dgram := {| d_hdr := Build_header true 0 0 0 APP 0 0 0; d_body := Bad |}.
+Definition lastAB (n : hnet tsig) : dgram := last (jAB n) dg_x.
+Definition lastBA (n : hnet tsig) : dgram := last (jBA n) dg_x.
+(* client: ephemeral 3, pinned to root 5; server-side connection: ephemeral 11, root 5 *)
+Definition n0 : hnet tsig := hnet0 tsig 3 (Some (t_pub 5)) 11 5 [(13, tok1)].
+Definition h1 : list jev := [JA (HConnect 1000 [x01]); JA (HTick 2000 HxNone)].
+Definition N1 := xjrun env_x n0 h1.
+Definition h2 : list jev := [JB (HRecv 3000 (lastAB N1)); JB (HOther (EServerTick 4000))].
+Definition N2 := xjrun env_x N1 h2.
+Definition h3 : list jev := [JA (HTick 5000 (HxDgram (lastBA N2)))].
+Definition N3 := xjrun env_x N2 h3.
+Definition h4 : list jev := [JB (HRecv 6000 (lastAB N3))].
+Definition N4 := xjrun env_x N3 h4.
+Definition hh : list jev := h1 ++ h2 ++ h3 ++ h4.
+
+(* computations stay on the goal side (vm casts); big unevaluated terms are never handed to
+   discriminate / injection (which would reduce them lazily) *)
+Ltac eval_in t H := let v := eval vm_compute in t in let E := fresh "E" in
+  assert (E : t = v) by (vm_compute; reflexivity); rewrite E in H; clear E.
+Ltac dy_goal :=
+  match goal with
+  | |- True => exact I
+  | |- forall d m, hev_dgram ?x = Some d -> _ =>
+      let d := fresh "d" in let m := fresh "m" in let Hd := fresh "Hd" in let Hm := fresh "Hm" in
+      intros d m Hd Hm; cbn [hev_dgram] in Hd;
+      lazymatch type of Hd with
+      | None = Some _ => discriminate Hd
+      | Some ?D = Some _ =>
+          let ko := fresh "ko" in let ms := fresh "ms" in let w := fresh "w" in
+          let OD := fresh "OD" in let Iw := fresh "Iw" in
+          destruct Hm as (ko & ms & w & OD & Iw & <-);
+          assert (d = D) as -> by congruence; clear Hd; eval_in D OD;
+          destruct ko as [k|]; cbn in OD; [discriminate OD|];
+          injection OD as <-; destruct Iw as [<-|[]];
+          vm_compute; intros sk _; right; exists 5; auto 10
+      end
+  end.
+Ltac sealed_goal :=
+  match goal with
+  | |- True => exact I
+  | |- forall d ms, hev_dgram ?x = Some d -> _ =>
+      let d := fresh "d" in let ms := fresh "ms" in let Hd := fresh "Hd" in let K := fresh "K" in let OD := fresh "OD" in
+      intros d ms Hd K OD; cbn [hev_dgram] in Hd;
+      lazymatch type of Hd with
+      | None = Some _ => discriminate Hd
+      | Some ?D = Some _ =>
+          first [ (exfalso; apply K; vm_compute; reflexivity)
+                | (assert (d = D) as -> by congruence; clear Hd;
+                   first [ vm_compute; auto 10
+                         | match type of OD with ?t = _ => eval_in t OD end; discriminate OD ]) ]
+      end
+  end.
+
+(* the honest complete handshake: every hypothesis of R1-R3 holds, both ends CONNECTED with the same key
+   and token, the client holds the hello B signed last, B signed it for the client's key, one connect *)
+Example C02_run_honest_example :
+  ~ In 5 [7] /\
+  xdy_run env_x 5 [7] [pO] n0 hh /\ xsealed_run env_x n0 hh /\ xjrun env_x n0 hh = N4 /\
+  h_adopted (jA N4) = Some (5, pB, t_sign 5 pB) /\
+  last (map Some (signed_log tsig t_pub (gB N4))) None = Some (t_pub 3, pB) /\
+  c_status (h_conn (jA N4)) = CONNECTED /\ c_status (h_conn (jB N4)) = CONNECTED /\
+  c_key (h_conn (jA N4)) = Some (t_kdf (t_dh 3 (t_pub 11)) 13) /\ c_key (h_conn (jB N4)) = c_key (h_conn (jA N4)) /\
+  c_token (h_conn (jA N4)) = tok1 /\ c_token (h_conn (jB N4)) = tok1 /\
+  map (fun j => xconnects (snd j)) (gB N4) = [false; true].
+Proof.
+  split; [intros [H|[]]; discriminate H|].
+  split.
+  { unfold hh, h1, h2, h3, h4. cbn [app dy_run dy_ev]. repeat match goal with |- _ /\ _ => split end. all: dy_goal. }
+  split.
+  { unfold hh, h1, h2, h3, h4. cbn [app sealed_run sealed_ev]. repeat match goal with |- _ /\ _ => split end. all: sealed_goal. }
+  split; [vm_compute; reflexivity|]. vm_compute. repeat split; reflexivity.
+Qed.
+
+(* the replayed hello.  Another session of the same server (ephemeral 17, same root 5) answered the same
+   client hello; the attacker withholds B's hello and hands the client that other session's genuine hello.
+   The client verifies it (it IS signed by the pinned root key), adopts key kdf(dh 3 17, 19) and token
+   tok2 and reports CONNECTED; B holds kdf(dh 11 3, 13), cannot open the client's challenge response,
+   never reports connect and stays CONNECTING.  All hypotheses of R1-R3 hold, including R3's premise. *)
+Definition m0 : hnet tsig := hnet0 tsig 3 (Some (t_pub 5)) 17 5 [(19, tok2)].
+Definition M2 := xjrun env_x m0 (h1 ++ [JB (HRecv 3000 (lastAB N1)); JB (HOther (EServerTick 4000))]).
+Definition d_other : dgram := lastBA M2.
+Definition r3 : list jev := [JA (HTick 5000 (HxDgram d_other))].
+Definition R3 := xjrun env_x N2 r3.
+Definition r4 : list jev := [JB (HRecv 6000 (lastAB R3))].
+Definition R4 := xjrun env_x R3 r4.
+Definition hr : list jev := h1 ++ h2 ++ r3 ++ r4.
+
+Example C02_run_replayed_hello_example :
+  xdy_run env_x 5 [7] [pO] n0 hr /\ xsealed_run env_x n0 hr /\ xjrun env_x n0 hr = R4 /\
+  h_adopted (jA R4) = Some (5, pO, t_sign 5 pO) /\
+  c_status (h_conn (jA R4)) = CONNECTED /\
+  c_key (h_conn (jA R4)) = Some (t_kdf (t_dh 3 (t_pub 17)) 19) /\ c_token (h_conn (jA R4)) = tok2 /\
+  c_status (h_conn (jB R4)) = CONNECTING /\
+  c_key (h_conn (jB R4)) = Some (t_kdf (t_dh 11 (t_pub 3)) 13) /\ c_token (h_conn (jB R4)) = tok1 /\
+  c_key (h_conn (jB R4)) <> c_key (h_conn (jA R4)) /\
+  c_dropped (h_conn (jB R4)) = 1 /\
+  map (fun j => xconnects (snd j)) (gB R4) = [false] /\
+  (forall dA kA sA rp pl sg, In (dA, kA, (sA, SERVER_HELLO, MServerHello rp pl sg)) (gA R4) ->
+     t_verify (t_pub 5) sg pl = true ->
+     forall d k0 en, In (d, k0, en) (gB R4) -> k0 <> Some (client_key t_dh t_kdf 3 pl)).
+Proof.
+  split.
+  { unfold hr, h1, h2, r3, r4. cbn [app dy_run dy_ev]. repeat match goal with |- _ /\ _ => split end. all: dy_goal. }
+  split.
+  { unfold hr, h1, h2, r3, r4. cbn [app sealed_run sealed_ev]. repeat match goal with |- _ /\ _ => split end. all: sealed_goal. }
+  split; [vm_compute; reflexivity|].
+  repeat match goal with |- _ /\ _ => split end; try (vm_compute; reflexivity).
+  - vm_compute. intros H. discriminate H.
+  - intros dA kA sA rp pl sg _ _ d k0 en Hin.
+    pose (f := fun j : jentry tsig => snd (fst j)).
+    assert (E : map f (gB R4) = [None]) by (vm_compute; reflexivity).
+    pose proof (in_map f _ _ Hin) as X. rewrite E in X. destruct X as [X|[]]. subst f. cbn in X. subst k0. discriminate.
+Qed.
